@@ -14,7 +14,7 @@ outfile = args[args.index("--out") + 1] if "--out" in args else "selftest/RESULT
 FIX_PROP = {"F1": "C05", "F2": "C06", "F3": "C16", "F4": "C19", "F5": "C20", "F6": "C20", "F7": "C17", "F8": "C20", "F9": "C09"}
 rows = []
 jobs = []
-for p in sorted(glob.glob("seeded/C*/m*/patch.diff")) + sorted(glob.glob("seeded/C*/r*/patch.diff")) + sorted(glob.glob("seeded/C*/s*/patch.diff")) + sorted(glob.glob("seeded/C*/t*/patch.diff")) + sorted(glob.glob("seeded/C*/x*/patch.diff")) + sorted(glob.glob("seeded/C*/y*/patch.diff")) + sorted(glob.glob("seeded/C*/z*/patch.diff")) + sorted(glob.glob("seeded/C*/w*/patch.diff")) + sorted(glob.glob("seeded/C*/v*/patch.diff")) + sorted(glob.glob("seeded/C*/u*/patch.diff")):
+for p in sorted(glob.glob("seeded/C*/m*/patch.diff")) + sorted(glob.glob("seeded/C*/r*/patch.diff")) + sorted(glob.glob("seeded/C*/s*/patch.diff")) + sorted(glob.glob("seeded/C*/t*/patch.diff")) + sorted(glob.glob("seeded/C*/x*/patch.diff")) + sorted(glob.glob("seeded/C*/y*/patch.diff")) + sorted(glob.glob("seeded/C*/z*/patch.diff")) + sorted(glob.glob("seeded/C*/w*/patch.diff")) + sorted(glob.glob("seeded/C*/v*/patch.diff")) + sorted(glob.glob("seeded/C*/u*/patch.diff")) + sorted(glob.glob("seeded/C*/q*/patch.diff")):
     pid = p.split("/")[1]
     jobs.append((pid, p.split("/")[2], p, json.load(open(os.path.dirname(p) + "/meta.json")).get("summary", "")))
 for p in sorted(glob.glob("seeded/reverted-fixes/F*.diff")):
